@@ -28,7 +28,7 @@ fn main() {
             println!("{:?}", r.iter().map(|x| x.width).collect::<Vec<_>>());
             0
         }
-        Some("cfg") => cfgdrv::run(seed, n, arg(rest, "--family").unwrap_or("layer"), &out, stats.as_deref()),
+        Some("cfg") => cfgdrv::run(seed, n, arg(rest, "--family").unwrap_or("layer"), &out, stats.as_deref(), arg(rest, "--emit-scenarios")),
         _ => {
             eprintln!("usage: vt tui|cfg --seed S --n N --out FILE [--stats FILE]");
             2
